@@ -16,3 +16,4 @@ PROPS['C13'] = ('core_family', 'c13')
 PROPS['C03'] = ('auth_family', 'c03')
 PROPS['C04'] = ('auth_family', 'c04')
 PROPS['C12'] = ('wire_family', 'c12')
+PROPS['C20'] = ('transport_family', 'c20')
